@@ -120,6 +120,16 @@ Definition set_pixels st (px : pixels) (v : Z) : res unit :=
 (* tracks.get_pixels(node) *)
 Definition get_pixels st n : option pixels :=
   match seg st with None => None | Some sg => Some (time_of st n, mask_of sg (time_of st n) n) end.
+(* the validation UserAddNode / UserDeleteNode run before their first sub-action (post-fix tree):
+   the error set_pixels would raise for these pixels, without writing *)
+Definition px_check st (px : option pixels) : option err :=
+  match px with
+  | None => None
+  | Some p => match seg st with
+              | None => Some EValue
+              | Some sg => if frame_ok sg (fst p) then None else Some EIndex
+              end
+  end.
 
 (* ---------- annotators: incremental updates ---------- *)
 (* RegionpropsAnnotator.update for AddNode / UpdateNodeSeg *)
@@ -456,6 +466,7 @@ Fixpoint udn_orphans (os : list Z) (s : state) (acc : list action) : res (list a
               | None => Err EKey s end
   end.
 Definition user_delete_node_core st n (pxo : option pixels) : res action :=
+  match px_check st pxo with Some e => Err e st | None =>
   if negb (has_node st n) then Err ENetworkX st else
   let preds := predecessors st n in
   let had_pred := match preds with [] => false | _ => true end in
@@ -473,7 +484,8 @@ Definition user_delete_node_core st n (pxo : option pixels) : res action :=
   let orphans := if had_pred then orphans else tl orphans in
   do acts4, s <- udn_orphans orphans s acts3;
   do b, s <- do_del_node s n pxo;
-  Ok (AGroup (acts4 ++ [ABasic b])) s.
+  Ok (AGroup (acts4 ++ [ABasic b])) s
+  end.
 Definition user_delete_node st n (pxo : option pixels) (top : bool) : res action :=
   top_wrap top None (user_delete_node_core st n pxo).
 
@@ -506,6 +518,7 @@ Definition user_add_node_core st n (a : attrs) (px : option pixels) (force : boo
   let '(st, (pred, succ)) := track_neighbors st T t in
   do conflicts, st <- uan_conflicts st pred succ force;
   if (match px with None => negb (all_in (pos_keys (ft st)) a) | Some _ => false end) then Err (EInvalid false) st else
+  match px_check st px with Some e => Err e st | None =>
   do acts, s <- uan_cut conflicts st [];
   let a := if haskey KLin a then a else
      match (match pred, succ with
@@ -520,6 +533,7 @@ Definition user_add_node_core st n (a : attrs) (px : option pixels) (force : boo
   do acts, s <- (match pred with Some p => do b', s <- do_add_edge s p n []; Ok (acts ++ [ABasic b; ABasic b']) s | None => Ok (acts ++ [ABasic b]) s end);
   do acts, s <- (match succ with Some c => do b', s <- do_add_edge s n c []; Ok (acts ++ [ABasic b']) s | None => Ok acts s end);
   Ok (AGroup acts) s
+  end
   end.
 Definition user_add_node st n (a : attrs) (px : option pixels) (force top : bool) : res action :=
   top_wrap top (Some n) (user_add_node_core st n a px force).
